@@ -65,6 +65,10 @@ func genC12(seed uint64, index int, tier string) *run.Plan {
 			p.Ops = append(p.Ops, run.Op{Kind: kind, Caller: c, AtMs: g.Intn(span + 1), A: []int{0, 1, 5, 32, 200, 253, 254, 255, 1000, 70000}[g.Intn(10)]})
 		}
 	}
+	if g.Intn(3) == 0 {
+		p.P["pct"] = 1 + g.Intn(3) // PCT-style scheduling with this many priority change points
+		p.P["pct_span"] = 50 + g.Intn(2000)
+	}
 	if g.Intn(4) == 0 {
 		p.P["faultfree"] = 1
 		// latencies and think times stay far below the timeout
@@ -208,6 +212,7 @@ func execC12(t *testing.T, w *core.World, p *run.Plan, r *run.Result) {
 		return
 	}
 	tReady := w.Now()
+	setPCT(w, p)
 	dialsAtReady := h.Dials
 	if dialsAtReady != nconn {
 		w.Violate("harness-selfcheck", "harness-selfcheck|dials", fmt.Sprintf("expected %d dials at setup, saw %d", nconn, dialsAtReady))
@@ -621,4 +626,18 @@ func init() {
 		Simulated:   []string{"TCP (simnet)", "lite server (litesrv + independent ADNL + independent TL codec)", "clock (testing/synctest)", "crypto/rand, math/rand (seeded)", "goroutine interleaving at every mutex acquisition (controlled mode); Go scheduler under -race (free-running mode)"},
 		Assumptions: []string{"interleavings are varied at lock acquisitions, network deliveries, timer instants and injected stalls; two goroutines that meet on a channel without taking a lock in between run in the runtime's order", "bounded liveness R = 60 simulated s after the last fault (180 s after a black-hole: keep-alive bound)", "recovery is asserted after server close / reset / refused or slow dials / stalls that end in a reset, not after in-stream corruption", "data races: free-running mode replays statistically, not exactly"},
 	}})
+}
+
+// setPCT switches the world to PCT-style scheduling if the plan asks for it; the change points are
+// derived from the plan seed (so they are part of the plan, not of the schedule trace).
+func setPCT(w *core.World, p *run.Plan) {
+	n := p.Get("pct", 0)
+	if n <= 0 || p.Free {
+		return
+	}
+	g := core.NewRng(core.Mix(p.Seed, 0x9c7))
+	w.PCT = true
+	for i := 0; i < n; i++ {
+		w.PCTChanges = append(w.PCTChanges, w.Steps+1+g.Intn(p.Get("pct_span", 500)))
+	}
 }
